@@ -660,3 +660,34 @@ def gen_ratec(rng, tier):
                 t += [rng.randrange(2)] + T + P + vals
                 out.append("ratec " + " ".join(map(str, t)))
     return out
+
+
+# vsem kind L nops {op args}*
+def gen_vsem(rng, tier):
+    out = []
+    # corpus-like seeds first: the shortest sequences that reach a Solve on a copy / moved-to State
+    seeds = [[(0, 0), (1, 1, 0), (6, 1)], [(0, 0), (2, 2, 0), (6, 2), (6, 0)], [(0, 0), (3, 1, 0), (6, 1)],
+             [(0, 0), (4, 1, 0), (6, 1), (1, 2, 1), (6, 2)], [(0, 0), (1, 1, 0), (1, 2, 1), (6, 2)], [(0, 1), (7,), (6, 1)]]
+    for kind in (0, 1):
+        for L in (0, 3):
+            for sq in seeds:
+                out.append("vsem %d %d %d %s" % (kind, L, len(sq), " ".join(" ".join(map(str, o)) for o in sq)))
+    for _ in range(vol(tier, 150, 3000)):
+        kind = rng.randrange(2)
+        L = rng.choice([0, 3])
+        n = rng.randrange(3, 13 if tier != "thorough" else 31)
+        ops = [(0, rng.randrange(4))]
+        for _ in range(n):
+            o = rng.choice([0, 1, 1, 2, 2, 3, 4, 5, 6, 6, 6, 7])
+            if o == 0:
+                ops.append((0, rng.randrange(4)))
+            elif o in (1, 2, 3, 4):
+                ops.append((o, rng.randrange(4), rng.randrange(4)))
+            elif o == 5:
+                ops.append((5, rng.randrange(4), rng.randrange(6)))
+            elif o == 6:
+                ops.append((6, rng.randrange(4)))
+            else:
+                ops.append((7,))
+        out.append("vsem %d %d %d %s" % (kind, L, len(ops), " ".join(" ".join(map(str, o)) for o in ops)))
+    return out
